@@ -11,6 +11,7 @@ CONSTANTS
   OrphanMetaKept = FALSE
   CorruptIgnoresMeta = FALSE
   MayRelease = FALSE
+  DropBeforeDrain = FALSE
   GraceTimer = "observer"
 INVARIANTS CSafe
 CHECK_DEADLOCK FALSE
